@@ -437,6 +437,11 @@ class FullTranslator(Translator):
                 re.match(r'(::)?std::distance\b', self.src.text(c).strip()):
             # std::distance(p, q) on character cursors = q - p
             return E('%s - %s' % (paren(args[1].term), paren(args[0].term)), self.resolve(n['type'], n), conj(*[a.defd for a in args]))
+        if name == 'strlen' and len(args) == 1 and args[0].ty.kind == 'ptr' and re.match(r'(::)?(std::)?strlen\b', self.src.text(c).strip()):
+            # the distance to the first NUL at or after the cursor; it must exist inside the array
+            a = paren(args[0].term)
+            env.buf = True
+            return E('%sstrlen buf %s' % (SEM, a), self.resolve(n['type'], n), conj(args[0].defd, '%scstrOk buf %s' % (SEM, a)))
         if name not in STD_WHITELIST:
             self.bad(n, 'call to %s, which is neither an osmium function nor on the whitelist' % name)
         dd = conj(*[a.defd for a in args])
